@@ -64,6 +64,26 @@ def _slot_hashes(n=4):
 
 SLOT_HASH = _slot_hashes()
 
+
+# Handler class flavours: classes that declare __slots__ and are still weakly referenceable are handlers like any
+# other (the dispatcher must hold them weakly too)
+@event_handler('ev')
+class KSlots:
+    """__slots__ with '__weakref__': no __dict__, weak references allowed"""
+    __slots__ = ('slot', 'idx', '__weakref__')
+
+    __init__ = K.__init__
+    __hash__ = K.__hash__
+    ev = K.ev
+
+
+class KEmptySlots(K):
+    """`__slots__ = ()` in a subclass of a plain class: __dict__ and __weakref__ are inherited"""
+    __slots__ = ()
+
+
+KLASSES = [K, KSlots, KEmptySlots]
+
 # configurations: (attachment, program keeps a strong reference, route by which it disappears)
 DISPATCHER_CFG = [
     ('direct', True, 'drop'),               # last reference dropped
@@ -90,7 +110,8 @@ WORLD_CFG = [
 class Ctx:
     """The program's own state: the only strong references to handlers live in `strong` and in the World."""
 
-    def __init__(self, world_mode, cfg, kill):
+    def __init__(self, world_mode, cfg, kill, cls=K):
+        self.cls = cls
         self.d = World() if world_mode else EventDispatcher()
         self.world_mode = world_mode
         self.cfg = cfg
@@ -110,7 +131,7 @@ class Ctx:
     def build(self, perm):
         for slot, i in enumerate(perm):
             att, keep, _ = self.cfg[i]
-            h = K(slot, i)
+            h = self.cls(slot, i)
             self.refs[i] = weakref.ref(h)
             if att == 'component':
                 self.ents[i] = self.d.create_entity(h)
@@ -136,7 +157,7 @@ class Ctx:
             self.d.remove_handler(self.strong[j])
             self.status[j] = 'removed'
         elif route == 'remove_component':
-            self.d.remove_component(self.ents[j], K)
+            self.d.remove_component(self.ents[j], self.cls)
             self.status[j] = 'open' if keep else 'gone'
         elif route == 'delete_entity':
             self.d.delete_entity(self.ents[j], immediate=True)
@@ -154,17 +175,17 @@ class Ctx:
         if route == 'drop+replace':
             old_id = id(self.strong[j])
             del self.strong[j]
-            self.strong[new_idx] = K(3, new_idx)
+            self.strong[new_idx] = self.cls(3, new_idx)
             self.d.add_handler(self.strong[new_idx])
             self.reused = self.reused or id(self.strong[new_idx]) == old_id
             self.refs[new_idx] = weakref.ref(self.strong[new_idx])
         else:
             e = self.ents[j]
-            old_id = id(self.d.get_component(e, K))
-            self.d.remove_component(e, K)
-            self.d.add_component(e, K(3, new_idx))
-            self.reused = self.reused or id(self.d.get_component(e, K)) == old_id
-            self.refs[new_idx] = weakref.ref(self.d.get_component(e, K))
+            old_id = id(self.d.get_component(e, self.cls))
+            self.d.remove_component(e, self.cls)
+            self.d.add_component(e, self.cls(3, new_idx))
+            self.reused = self.reused or id(self.d.get_component(e, self.cls)) == old_id
+            self.refs[new_idx] = weakref.ref(self.d.get_component(e, self.cls))
             self.ents[new_idx] = e
         self.status[j] = 'gone'
         self.status[new_idx] = 'live'
@@ -180,10 +201,10 @@ class Ctx:
                 self.status[i] = 'removed' if i in self.strong else 'gone'
 
 
-def run_program(sp, world_mode, cfg, kill, pre, mid, perm, what, defer=0):
+def run_program(sp, world_mode, cfg, kill, pre, mid, perm, what, defer=0, cls=K):
     """returns the listener order seen by the probe dispatch (tuple of logical ids)"""
     k = len(perm)
-    ctx = Ctx(world_mode, cfg, kill)
+    ctx = Ctx(world_mode, cfg, kill, cls)
     ctx.build(perm)
     for i in range(k):
         if pre[i]:
@@ -212,6 +233,8 @@ def run_program(sp, world_mode, cfg, kill, pre, mid, perm, what, defer=0):
     judge(sp, ctx, before, victims, what, 'dispatch with disappearing handlers')
     if any(before[j] == 'live' and ctx.status[j] == 'gone' for j in range(k)):
         sp.cover('died-during-dispatch')
+        if cls is not K:
+            sp.cover('slotted-handler-died')
         if defer:
             sp.cover('died-during-deferred-release')
     if any(before[j] == 'live' and ctx.status[j] in ('open', 'removed') for j in range(k)):
@@ -416,7 +439,7 @@ def h_relay(sp, k=2):
     sp.done()
 
 
-def h_weak(sp, k=2, world=True, cfgs=None, diag=False, drops=True, defer=(0,)):
+def h_weak(sp, k=2, world=True, cfgs=None, diag=False, drops=True, defer=(0,), klass=(0,)):
     table = WORLD_CFG if world else DISPATCHER_CFG
     allowed = list(range(N_CLASSIC[bool(world)])) if cfgs is None else list(cfgs)
     cfg = [table[sp.pick(allowed, 'config[h%d]' % i)] for i in range(k)]
@@ -429,6 +452,9 @@ def h_weak(sp, k=2, world=True, cfgs=None, diag=False, drops=True, defer=(0,)):
         kill.append(tuple(row))
     pre = [bool(drops and sp.flag('drop-before[h%d]' % i)) for i in range(k)]
     mid = [bool(drops and sp.flag('drop-between[h%d]' % i)) for i in range(k)]
+    cls = KLASSES[sp.pick(list(klass), 'handler-class')]
+    if cls is not K:
+        sp.note('handler class: %s (%s)' % (cls.__name__, cls.__doc__))
     dmode = sp.pick(list(defer), 'deferred-mode')
     if dmode:
         sp.note('the dispatch with disappearing handlers%s is issued while disabled and released by '
@@ -451,7 +477,7 @@ def h_weak(sp, k=2, world=True, cfgs=None, diag=False, drops=True, defer=(0,)):
         perm = perms[t % len(perms)]
         what = 'run %d, creation order %r' % (t, list(perm))
         sp.note(what)
-        order = run_program(sp, world, cfg, kill, pre, mid, perm, what, dmode)
+        order = run_program(sp, world, cfg, kill, pre, mid, perm, what, dmode, cls)
         orders.add(order)
         if need is None:
             need = set(itertools.permutations(sorted(order)))
@@ -483,6 +509,8 @@ HARNESSES = {
 
 NOCLEAR_REQ = ['kill-relation', 'died-during-dispatch', 'died-before-its-turn', 'detached-alive-during-dispatch',
                'survivors-and-dead', 'all-listener-orders']
+SLOT_REQ = ['kill-relation', 'died-during-dispatch', 'died-before-its-turn', 'detached-alive-during-dispatch',
+            'survivors-and-dead', 'all-listener-orders', 'slotted-handler-died']
 REPL_REQ = ['kill-relation', 'died-during-dispatch', 'died-before-its-turn', 'survivors-and-dead',
             'all-listener-orders', 'replaced-during-dispatch', 'address-reused', 'replacement-served-later']
 DEFER_REQ = NOCLEAR_REQ + ['died-during-deferred-release', 'cleared-during-dispatch']
@@ -502,6 +530,8 @@ TIERS = {
         ('weak', dict(k=2, world=True, cfgs=[0, 2, 8, 9], diag=True, drops=False, defer=(0, 1)),
          {'required': REPL_REQ}),
         ('weak', dict(k=3, world=True, cfgs=[0, 8, 9], drops=False), {'required': REPL_REQ}),
+        ('weak', dict(k=2, world=False, cfgs=[0, 1, 2], drops=True, klass=(1, 2)), {'required': SLOT_REQ}),
+        ('weak', dict(k=2, world=True, cfgs=[0, 1, 3, 4], drops=False, klass=(1, 2)), {'required': SLOT_REQ}),
     ],
     'thorough': [
         ('relay', dict(k=3)),
@@ -518,6 +548,8 @@ TIERS = {
         ('weak', dict(k=2, world=False, cfgs=[0, 1, 4], diag=True), {'required': REPL_REQ}),
         ('weak', dict(k=3, world=True, cfgs=[0, 1, 4, 8, 9], drops=False, defer=(0, 1)), {'required': REPL_REQ}),
         ('weak', dict(k=2, world=True, cfgs=[0, 2, 3, 8, 9], diag=True), {'required': REPL_REQ}),
+        ('weak', dict(k=3, world=False, cfgs=[0, 1, 2], drops=False, klass=(1, 2), defer=(0, 1)), {'required': SLOT_REQ}),
+        ('weak', dict(k=2, world=True, diag=True, klass=(1, 2)), {'required': SLOT_REQ + ['cleared-during-dispatch']}),
     ],
 }
 BUDGET_S = {'quick': 120, 'thorough': 1500}
@@ -568,6 +600,9 @@ ASSUMPTIONS = [
     'enabling assignment raises nothing, the other queued events reach the attached handlers, and afterwards the '
     'removed handler is dead unless the program holds it; whether a removed handler still sees events queued before '
     'its removal is not asserted',
+    'handler classes that declare __slots__ but remain weakly referenceable (__weakref__ among the slots, or an '
+    'empty __slots__ in a subclass of a plain class) are held weakly like any other handler; classes whose '
+    'instances cannot be weakly referenced at all are outside (add_handler cannot take them)',
     'reference counting CPython (the statement is about dropping the last reference)',
 ]
 OUTSIDE = ['more than 3 handlers of one event', 'handlers kept alive only by reference cycles that gc has not '
